@@ -225,6 +225,10 @@ class Neighbor:
         self.rib.reset()
         self.messages = deque()
         self.refresh = deque()
+        # an End-of-RIB asked for through the API belongs to the session it was asked on: left in the queue it was
+        # sent in the middle of the first batch of the NEXT session, and a graceful-restart helper which believes it
+        # flushes the routes which follow
+        self.eor = deque()
 
     # back to square one, all the routes are removed
     def clear_rib(self) -> None:
